@@ -21,7 +21,8 @@ func (c11) ID() string { return "C11" }
 func (c11) Rule() string {
 	return "each run: seeded tree biased towards annotation wrappers (regular strings), 2..5 knowing processes, one route of 1..8 hops with duplication/delay; " +
 		"every public accessor, per-layer safe details (barrier/secondary layers excepted), per-layer reportable stack frames and the one-line source are compared " +
-		"with their values before the first hop after every delivery; distinct = (constructor-shape signature x route length); " +
+		"with their values before the first hop after every delivery; origin and relays may observe the error before sending it (1/3), a relay may wrap it in generated layers and send that on " +
+		"as a new flow whose reference values are the relay's own (1/6), foreign-architecture errnos (1/4); distinct = (constructor-shape signature x route length); " +
 		"non-trivial = tree has >= 2 layers and at least one accessor has a non-default value at the origin"
 }
 
